@@ -6,7 +6,9 @@ import (
 	"go/token"
 	"go/types"
 	"math/big"
+	"os"
 	"strings"
+	"sync"
 
 	"golang.org/x/tools/go/ssa"
 )
@@ -168,6 +170,34 @@ func (ex *Exec) addrLoc(st *State, p Val, pointee types.Type, instr ssa.Instruct
 	return Loc{}, false
 }
 
+var srcCache = map[string][]string{}
+var srcMu sync.Mutex
+
+// srcLine returns the trimmed source text of the line an instruction comes from; obligation
+// labels use it instead of a line number so that they survive edits elsewhere in the file.
+func (ex *Exec) srcLine(instr ssa.Instruction) string {
+	if instr == nil || !instr.Pos().IsValid() {
+		return "?"
+	}
+	ps := ex.ctx.prog.Fset.Position(instr.Pos())
+	srcMu.Lock()
+	lines, ok := srcCache[ps.Filename]
+	if !ok {
+		data, _ := os.ReadFile(ps.Filename)
+		lines = strings.Split(string(data), "\n")
+		srcCache[ps.Filename] = lines
+	}
+	srcMu.Unlock()
+	if ps.Line-1 < len(lines) && ps.Line >= 1 {
+		t := strings.Join(strings.Fields(lines[ps.Line-1]), " ")
+		if len(t) > 70 {
+			t = t[:70]
+		}
+		return t
+	}
+	return "?"
+}
+
 // ---- safety obligations ---------------------------------------------------------------
 
 func (ex *Exec) safe(st *State, cond Term, instr ssa.Instruction, what string) {
@@ -175,7 +205,7 @@ func (ex *Exec) safe(st *State, cond Term, instr ssa.Instruction, what string) {
 		return
 	}
 	if ex.safety && ex.disc == nil {
-		ex.oblige(st, "safety", what+"@"+ex.pos(instr), []string{"C14"}, cond, what)
+		ex.oblige(st, "safety", what+" @ "+ex.srcLine(instr), []string{"C14"}, cond, what)
 	}
 	st.Assume(cond)
 }
@@ -239,7 +269,7 @@ func (ex *Exec) run(st *State, frID int, b *ssa.BasicBlock, idx int, prev *ssa.B
 		case *ssa.Panic:
 			if ex.disc == nil {
 				if ex.safety {
-					ex.oblige(st, "safety", "panic@"+ex.pos(in), []string{"C14"}, False, "explicit panic reachable")
+					ex.oblige(st, "safety", "explicit panic @ "+ex.srcLine(in), []string{"C14"}, False, "explicit panic reachable")
 				}
 			}
 			return
@@ -494,6 +524,9 @@ func (ex *Exec) unop(st *State, fr *Frame, in *ssa.UnOp) Val {
 		l, ok := ex.addrLoc(st, x, pt, in)
 		if !ok {
 			return ex.symbolic(st, "load", in.Type())
+		}
+		if l.Kind == LGlobal {
+			ex.checkGuard(st, l.Global, in)
 		}
 		v := ex.loadLoc(st, l)
 		if l.Kind == LHeap1 || l.Kind == LHeap2 || l.Kind == LStruct {
@@ -1054,4 +1087,23 @@ func (ex *Exec) skipSet(fn *ssa.Function) map[ssa.Instruction]bool {
 	ex.ctx.skips[fn] = skip
 	ex.ctx.mu.Unlock()
 	return skip
+}
+
+// checkGuard: a guarded package-level variable is only touched while its mutex is held.
+func (ex *Exec) checkGuard(st *State, g *ssa.Global, instr ssa.Instruction) {
+	if ex.disc != nil || g.Pkg == nil {
+		return
+	}
+	gd, ok := ex.ctx.specs.Guarded[g.Pkg.Pkg.Name()+"."+g.Name()]
+	if !ok {
+		return
+	}
+	lk, ok := g.Pkg.Members[gd.Lock].(*ssa.Global)
+	if !ok {
+		ex.errs = append(ex.errs, "contract-binding: guarded_by names unknown lock "+gd.Lock)
+		return
+	}
+	ref, _ := ex.globalAddr(lk).(Term)
+	held := Select(ex.heap(st, "ghost:sync.Mutex.held", ArrSort(SBool)), ref)
+	ex.oblige(st, "guarded", g.Name()+" @ "+ex.srcLine(instr), gd.Props, held, "access to "+g.Name()+" while "+gd.Lock+" is held")
 }
